@@ -79,6 +79,8 @@ def loops_of(fnode):
         continue
       if isinstance(c, (ast.While, ast.For)):
         out.append(c)
+      if isinstance(c, ast.Expr) and isinstance(c.value, ast.ListComp):
+        out.append(c.value)       # a comprehension used as a statement is a loop
       rec(c)
   rec(fnode)
   return out
@@ -187,6 +189,20 @@ class StmtMixin(object):
   def ex_Expr(self, node, st, cx):
     if isinstance(node.value, ast.Constant):   # docstring
       yield st, NEXT
+      return
+    if isinstance(node.value, ast.ListComp) and len(node.value.generators) == 1 and not node.value.generators[0].is_async:
+      # [f(x) for x in xs] as a statement: the loop it abbreviates (the resulting list is dropped)
+      lc = node.value
+      g = lc.generators[0]
+      body = [ast.Expr(value=lc.elt)]
+      for cond in reversed(g.ifs):
+        body = [ast.If(test=cond, body=body, orelse=[])]
+      loop = ast.For(target=g.target, iter=g.iter, body=body, orelse=[], type_comment=None)
+      ast.copy_location(loop, node)
+      ast.fix_missing_locations(loop)
+      loop._pyvc_spec_node = lc
+      for o in self.ex_For(loop, st, cx):
+        yield o
       return
     for s1, v in self.ev(node.value, st, cx):
       yield s1, (('exc', v) if isinstance(v, Exc) else NEXT)
@@ -524,6 +540,7 @@ class StmtMixin(object):
     if fn is None or spec is None:
       raise Unsupported('loop at line %d in a function without a sidecar entry (%s)' % (node.lineno, cx.qual))
     lps = loops_of(fn)
+    node = getattr(node, '_pyvc_spec_node', node)
     try:
       ordn = [id(l) for l in lps].index(id(node))
     except ValueError:
@@ -720,6 +737,10 @@ class StmtMixin(object):
       if isinstance(seq, Exc):
         yield s1, ('exc', seq)
         continue
+      if isinstance(seq, V) and seq.ty.k == 'deque' and not enum:
+        for o in self.for_deque(node, s1, cx, ordn, ls, seq):
+          yield o
+        continue
       if not (isinstance(seq, V) and seq.ty.k == 'list'):
         for o in self.for_other(node, s1, cx, ordn, ls, seq, enum):
           yield o
@@ -741,6 +762,33 @@ class StmtMixin(object):
           yield o
       for o in self.run_loop(node, s1, cx, ordn, ls2, test, node.body, step, pre):
         yield o
+
+  def for_deque(self, node, st, cx, ordn, ls, seq):
+    """for x in <deque>: absolute positions lo..hi-1 in order ('_p<n>' is the hidden position);
+    CPython raises RuntimeError if the deque is mutated during iteration."""
+    frame_id = cx.chain[0]
+    pos = '_p%d' % ordn
+    lo0, hi0 = self.dq_bounds(st, seq)
+    st.frames[frame_id][pos] = V(INT, lo0)
+    ls2 = dict(ls)
+    ls2['havoc_locals'] = list(ls.get('havoc_locals', ())) + [pos]
+    ls2['invariant'] = list(ls.get('invariant', ())) + ['%s >= dq_lo_entry' % pos] if False else list(ls.get('invariant', ()))
+    def test(s):
+      lo, hi = self.dq_bounds(s, seq)
+      return s.frames[frame_id][pos].t < hi
+    def step(s):
+      lo, hi = self.dq_bounds(s, seq)
+      self.oblige(s, 'no-RuntimeError[%s.loop%d]' % (cx.qual, ordn), z3.And(lo == lo0, hi == hi0), node,
+                  'the deque is not mutated while it is iterated')
+      s.frames[frame_id][pos] = V(INT, s.frames[frame_id][pos].t + 1)
+    def pre(s):
+      p = s.frames[frame_id][pos]
+      s.assume(p.t >= lo0)
+      item = self.dq_get(s, seq, p.t)
+      for o in self.assign_to(node.target, item, s, cx):
+        yield o
+    for o in self.run_loop(node, st, cx, ordn, ls2, test, node.body, step, pre):
+      yield o
 
   def for_other(self, node, st, cx, ordn, ls, seq, enum):
     """for k, v in d.items() / for k in d.keys() / for v in d.values(): an arbitrary number of
